@@ -385,7 +385,7 @@ def run(tier: str, seed: int) -> int:
     chk.extra["population_comparisons"] = comps
     chk.extra["cross_impl_comparisons"] = xcomps
 
-    n11 = 520 if quick else 2100
+    n11 = 520 if quick else 6000
     e11 = 0
     for j in range(n11):
         variant = VARIANTS[j % len(VARIANTS)]
@@ -398,7 +398,7 @@ def run(tier: str, seed: int) -> int:
                         persample=rng.random() < 0.5, T=T, rng=rng,
                         form=rng.choice(["float", "t0", "mixed", "tsyn"]), via=rng.choice(["ctor", "override"]))
     chk.note(f"1x1 cells: {n11} runs, {e11} (sample, step) comparisons, mismatches so far={len(mm)}")
-    nmc = 252 if quick else 840
+    nmc = 252 if quick else 2500
     emc = 0
     for j in range(nmc):
         variant = VARIANTS[j % len(VARIANTS)]
@@ -419,7 +419,7 @@ def run(tier: str, seed: int) -> int:
         chk.violation({"clause": "Raised", "site": "trace-driver", "conn": c["conn"]["kind"],
                        "exc": type(ex).__name__, "rule": c["variant"], "delays": c["delays"]},
                       {"family": "c18", "cell": c, "error": repr(ex)})
-    traces = stdp_traces.c18_traces(chk, rng, 120 if quick else 700, 5, 4, on_raise)
+    traces = stdp_traces.c18_traces(chk, rng, 120 if quick else 2000, 5, 4, on_raise)
     kinds = {}
     for t in traces:
         kinds[t["meta"]["conn"]["kind"]] = kinds.get(t["meta"]["conn"]["kind"], 0) + 1
